@@ -313,6 +313,9 @@ theorem MapObj.metaOk_ungroup (m : MapObj α β) : m.ungroup.MetaOk := by
 theorem MapObj.metaOk_reorder (m : MapObj α β) (idx : List Nat) : (m.reorder idx).MetaOk := by
   intro mt h; simp [MapObj.reorder] at h
 
+theorem MapObj.metaOk_sort (m : MapObj α β) : m.sort.MetaOk := by
+  intro mt h; simp [MapObj.sort] at h
+
 /-- `remove` / `select` re-group a grouped map and leave an ungrouped one ungrouped: the result always has
     metadata that describe it — even when the object they were called on had not -/
 theorem MapObj.metaOk_regroup (m : MapObj α β) (r : List (Row α β)) : (m.regroup r).MetaOk := by
@@ -487,22 +490,89 @@ theorem derivedOf_eq_some {r : Except Err (Option (MapObj α β × MapObj α β)
     exact ⟨m', by rw [h]⟩
   · simp at h
 
-/-- with the repair the derived map has valid metadata (none) -/
-theorem MapObj.metaOk_interpGmapFixed {m d m' : MapObj α β} {qchr : List Int} {qphy : List α} {tags : List β}
-    (h : m.interpGmapFixed qchr qphy tags = .ok (some (d, m'))) : d.MetaOk := by
-  unfold MapObj.interpGmapFixed at h
-  split at h
-  · simp only [Except.ok.injEq, Option.some.injEq, Prod.mk.injEq] at h
-    intro mt hm
-    rw [← h.1] at hm
-    simp at hm
-  · rename_i hne
-    exact absurd h (by
-      intro hh
-      exact hne _ _ hh)
+/-- the derived map carries no metadata at all, hence valid metadata: for EVERY parent (reachable or not) and
+    every query for which the call returns -/
+theorem MapObj.interpGmap_gmeta {m d m' : MapObj α β} {qchr : List Int} {qphy : List α} {tags : List β}
+    (h : m.interpGmap qchr qphy tags = .ok (some (d, m'))) : d.gmeta = none := by
+  unfold MapObj.interpGmap at h
+  cases hi : m.interpGenposLit qchr qphy with
+  | error e => rw [hi] at h; simp at h
+  | ok v =>
+    obtain ⟨og, m1⟩ := v
+    rw [hi] at h
+    cases og with
+    | none => simp at h
+    | some gen =>
+      simp only at h
+      cases hd : derivedRows qchr qphy tags gen with
+      | none => rw [hd] at h; simp at h
+      | some rows =>
+        rw [hd] at h
+        simp only [Except.ok.injEq, Option.some.injEq, Prod.mk.injEq] at h
+        rw [← h.1]
 
-/-- the objects reachable from a constructor call through the methods of the map classes, `interp_gmap` in its
-    repaired form -/
+theorem MapObj.metaOk_interpGmap {m d m' : MapObj α β} {qchr : List Int} {qphy : List α} {tags : List β}
+    (h : m.interpGmap qchr qphy tags = .ok (some (d, m'))) : d.MetaOk := by
+  intro mt hm
+  rw [MapObj.interpGmap_gmeta h] at hm
+  simp at hm
+
+/-- on a parent whose metadata fit, `interp_gmap` never raises … -/
+theorem MapObj.interpGmap_no_error {m : MapObj α β} (hm : m.MetaOk) (qchr : List Int) (qphy : List α)
+    (tags : List β) : errOf (m.interpGmap qchr qphy tags) = none := by
+  unfold MapObj.interpGmap
+  rw [MapObj.interpGenposLit_of_metaOk hm]
+  cases hi : (m.interpGenpos qchr qphy).1 with
+  | none =>
+    have : m.interpGenpos qchr qphy = (none, (m.interpGenpos qchr qphy).2) := by rw [← hi]
+    rw [this]; rfl
+  | some gen =>
+    have hpair : m.interpGenpos qchr qphy = (some gen, (m.interpGenpos qchr qphy).2) := by rw [← hi]
+    rw [hpair]
+    simp only
+    cases derivedRows qchr qphy tags gen <;> rfl
+
+/-- … and leaves the parent as `interp_genpos` leaves it (grouped as a side effect, nothing else) -/
+theorem MapObj.interpGmap_parent {m d m' : MapObj α β} (hm : m.MetaOk) {qchr : List Int} {qphy : List α}
+    {tags : List β} (h : m.interpGmap qchr qphy tags = .ok (some (d, m'))) :
+    m' = (m.interpGenpos qchr qphy).2 := by
+  unfold MapObj.interpGmap at h
+  rw [MapObj.interpGenposLit_of_metaOk hm] at h
+  cases hi : (m.interpGenpos qchr qphy).1 with
+  | none =>
+    have : m.interpGenpos qchr qphy = (none, (m.interpGenpos qchr qphy).2) := by rw [← hi]
+    rw [this] at h; simp at h
+  | some gen =>
+    have hpair : m.interpGenpos qchr qphy = (some gen, (m.interpGenpos qchr qphy).2) := by rw [← hi]
+    rw [hpair] at h
+    simp only at h
+    cases hd : derivedRows qchr qphy tags gen with
+    | none => rw [hd] at h; simp at h
+    | some rows =>
+      rw [hd] at h
+      simp only [Except.ok.injEq, Option.some.injEq, Prod.mk.injEq] at h
+      exact h.2.symm
+
+/-- the repaired and the pre-repair `interp_gmap` differ in the metadata of the new object only -/
+theorem MapObj.interpGmap_eq_prerepair_ungrouped (m : MapObj α β) (qchr : List Int) (qphy : List α) (tags : List β) :
+    m.interpGmap qchr qphy tags =
+      (match m.interpGmapPrerepair qchr qphy tags with
+       | .ok (some (d, m')) => .ok (some ({ d with gmeta := none }, m'))
+       | r => r) := by
+  unfold MapObj.interpGmap MapObj.interpGmapPrerepair
+  cases hi : m.interpGenposLit qchr qphy with
+  | error e => rfl
+  | ok v =>
+    obtain ⟨og, m1⟩ := v
+    cases og with
+    | none => rfl
+    | some gen =>
+      simp only
+      cases hd : derivedRows qchr qphy tags gen with
+      | none => rfl
+      | some rows => rfl
+
+/-- the objects reachable from a constructor call through the methods of the map classes, `interp_gmap` included -/
 inductive Reach : MapObj α β → Prop
   | new (rows : List (Row α β)) (ag asp : Bool) : Reach (MapObj.new rows ag asp)
   | group {m} : Reach m → Reach m.group
@@ -511,12 +581,13 @@ inductive Reach : MapObj α β → Prop
   | selectMask {m} (mask : List Bool) : Reach m → Reach (m.selectMask mask)
   | ungroup {m} : Reach m → Reach m.ungroup
   | reorder {m} (idx : List Nat) : Reach m → Reach (m.reorder idx)
+  | sort {m} : Reach m → Reach m.sort
   | removeDiscrepancies {m} : Reach m → Reach m.removeDiscrepancies
   | buildSpline {m} : Reach m → Reach m.buildSpline
   | interpGenpos {m} (qchr : List Int) (qphy : List α) : Reach m → Reach (m.interpGenpos qchr qphy).2
   | assign {m} (rows : List (Row α β)) : Reach m → rows.map (·.chr) = m.rows.map (·.chr) → Reach (m.assign rows)
   | derived {m d m'} (qchr : List Int) (qphy : List α) (tags : List β) : Reach m →
-      m.interpGmapFixed qchr qphy tags = .ok (some (d, m')) → Reach d
+      m.interpGmap qchr qphy tags = .ok (some (d, m')) → Reach d
 
 theorem Reach.metaOk {m : MapObj α β} (h : Reach m) : m.MetaOk := by
   induction h with
@@ -527,11 +598,12 @@ theorem Reach.metaOk {m : MapObj α β} (h : Reach m) : m.MetaOk := by
   | selectMask mask _ _ => exact MapObj.metaOk_selectMask _ mask
   | ungroup _ _ => exact MapObj.metaOk_ungroup _
   | reorder idx _ _ => exact MapObj.metaOk_reorder _ idx
+  | sort _ _ => exact MapObj.metaOk_sort _
   | removeDiscrepancies _ ih => exact MapObj.metaOk_removeDiscrepancies ih
   | buildSpline _ ih => exact MapObj.metaOk_buildSpline ih
   | interpGenpos qchr qphy _ ih => exact MapObj.metaOk_interpGenpos ih qchr qphy
   | assign rows _ hl ih => exact MapObj.metaOk_assign ih rows hl
-  | derived qchr qphy tags _ hd _ => exact MapObj.metaOk_interpGmapFixed hd
+  | derived qchr qphy tags _ hd _ => exact MapObj.metaOk_interpGmap hd
 
 /-- the clauses of the property that concern a map class with riding columns `β`, as one statement (proved in
     Props/C11 `map_class_laws`, instantiated there for `StandardGeneticMap` and `ExtendedGeneticMap`) -/
